@@ -13,9 +13,9 @@ import (
 	"reflect"
 	"time"
 
-	gtypes "github.com/ethereum/go-ethereum/core/types"
-	gstate "github.com/ethereum/go-ethereum/core/state"
 	gcommon "github.com/ethereum/go-ethereum/common"
+	gstate "github.com/ethereum/go-ethereum/core/state"
+	gtypes "github.com/ethereum/go-ethereum/core/types"
 	grlp "github.com/ethereum/go-ethereum/rlp"
 	"golang.org/x/crypto/sha3"
 
